@@ -292,7 +292,7 @@ fn main() {{}}
 """
     obls = [
         Obl("C04.lemmas", ["C04", "C18"], desc="helper lemmas: two str::replace calls (backslash, then quote) equal the spec escaping; record payload after the first space round-trips"),
-        Obl("C04.reader.conforms", ["C04", "C18"], fn="split_string_v2", desc="split_string_v2 returns exactly finish(run_from(init, input)) of the codec state machine, Err exactly when the machine errs or ends inside quotes; all strings"),
+        Obl("C04.reader.conforms", ["C04", "C18", "C19"], fn="split_string_v2", desc="split_string_v2 returns exactly finish(run_from(init, input)) of the codec state machine, Err exactly when the machine errs or ends inside quotes; all strings"),
         Obl("C04.writer.quote", ["C04", "C18"], fn="fix_arg_if_needed", desc="fix_arg_if_needed wraps its argument in double quotes and nothing else"),
         Obl("C04.writer.conforms", ["C04"], fn="repr_instruction", desc="CompiledItem::repr (binary form) writes [opcode] ++ enc_args(arguments) ++ [NUL] where enc_arg escapes backslash and quote and wraps in quotes after one space; all argument vectors"),
         Obl("C04.roundtrip", ["C04"], fn="c04_roundtrip", desc="lemma: for all argument vectors (any characters) the loader's reader applied to the writer's record payload yields exactly the arguments"),
@@ -300,7 +300,7 @@ fn main() {{}}
     return gen, obls, log
 
 
-UNITS = [VUnit("c04_codec", ["C04", "C18"], "bytecode argument codec: reader/writer conformance + round trip", build)]
+UNITS = [VUnit("c04_codec", ["C04", "C18", "C19"], "bytecode argument codec: reader/writer conformance + round trip", build)]
 UNITS[0].assumes = [
     "strings are modelled as sequences of chars (R1); UTF-8 encoding/decoding of the file bytes (String::from_utf8_lossy, write!) is not modelled",
     "std contracts assumed: char::is_whitespace(' ') and not for '\"' and '\\\\'; str::replace(char,&str) = replace_char; format! concatenates its arguments",
